@@ -2,6 +2,8 @@
 import framework as fw
 from framework import hexs
 
+NEEDS_BINS = True
+
 def run(ctx, model_ok=True):
     rng = ctx.rng
     quick = ctx.tier == 'quick'
@@ -67,6 +69,14 @@ def run(ctx, model_ok=True):
             for rep in range(12 if quick else 150):
                 olines.append(f"pack p{k} {fs} {what} {rng.randrange(1 << 30)}")
                 k += 1
+    for fs in ['dos3x', 'prodos']:
+        for what, reps in [('recjson', 10), ('recidx', 6), ('rec', 30)]:
+            for rep in range(reps if quick else reps * 10):
+                olines.append(f"pack p{k} {fs} {what} {rng.randrange(1 << 30)}")
+                k += 1
+    for rep in range(3 if quick else 9):
+        olines.append(f"pack p{k} prodos big {rep}")
+        k += 1
     for fs in ['dos3x', 'prodos', 'pascal', 'cpm', 'fat']:
         for L in [255, 256, 257, 511, 512, 513, 514, 1021, 1022, 1023, 1024, 1025, 1026, 1027, 1535, 1536, 1537, 2047, 2048, 2049, 3071, 3072, 3073]:
             for kk in ([1, 2] if quick else [1, 2, 3, 5]):
@@ -86,9 +96,41 @@ def run(ctx, model_ok=True):
             kinds[o.split()[1] if len(o.split()) > 1 else 'ok'] = kinds.get(o.split()[1] if len(o.split()) > 1 else 'ok', 0) + 1
             if 'refused' not in o and 'empty' not in o:
                 ctx.nontrivial.add(ln)
+    cli_roundtrips(ctx)
     ctx.samples += [lines[0][:120], olines[0] + ' -> ' + str(out.get(olines[0].split()[1]))]
     ctx.distribution = {'rule': 'distinct case lines; non-trivial = the packer accepted the input and the round trip was compared', 'piece_cases': len(lines), 'pack_cases': len(olines),
                         'refused': sum(v for k2, v in kinds.items() if k2 == 'refused')}
+
+def cli_roundtrips(ctx):
+    """the command line: a2kit pack ... | a2kit unpack ... returns what went in (raw, bin, text, tokens, records), for every OS"""
+    import cliutil, json
+    rng = ctx.rng
+    cases = []
+    text = b'HELLO WORLD\nSECOND LINE\n'
+    recs = json.dumps({"fimg_type": "rec", "record_length": 32, "records": {"0": ["ALPHA"], "5": ["BETA", "GAMMA"]}}).encode()
+    for osn in ['dos33', 'prodos', 'pascal', 'cpm2', 'fat']:
+        name = 'T.TXT' if osn in ('cpm2', 'fat') else 'T'
+        blk = ['-b', '1024'] if osn == 'cpm2' else ['-b', '512'] if osn == 'fat' else []
+        raw = bytes(rng.randrange(256) for _ in range(rng.choice([1, 255, 256, 700])))
+        cases.append((osn, 'raw', ['pack', '-t', 'raw', '-o', osn, '-f', name] + blk, raw, ['unpack', '-t', 'raw', '--trunc'], raw))
+        cases.append((osn, 'txt', ['pack', '-t', 'txt', '-o', osn, '-f', name] + blk, text, ['unpack', '-t', 'txt'], text))
+        cases.append((osn, 'bin', ['pack', '-t', 'bin', '-o', osn, '-f', name, '-a', '768'] + blk, raw, ['unpack', '-t', 'bin'], raw))
+        if osn in ('dos33', 'prodos'):
+            cases.append((osn, 'rec', ['pack', '-t', 'rec', '-o', osn, '-f', name], recs, ['unpack', '-t', 'rec', '-l', '32'], None))
+    for osn, what, pk, data, up, want in cases:
+        ctx.evaluations += 1
+        rc1, fimg, err1 = cliutil.run(pk, stdin=data)
+        if rc1 != 0:
+            ctx.failures.append({'cls': f'cli:{osn}:{what}', 'case': 'a2kit ' + ' '.join(pk), 'detail': f'pack exited with {rc1}: {err1.decode("utf-8", "replace")[-200:]}'})
+            continue
+        rc2, out, err2 = cliutil.run(up, stdin=fimg)
+        ok = rc2 == 0 and (out == want if want is not None else (b'"ALPHA"' in out and b'"GAMMA"' in out and b'"5"' in out))
+        if ok or (rc2 == 0 and what == 'raw' and osn in ('dos33', 'cpm2') and out.startswith(want) and len(out) - len(want) < 256):
+            ctx.nontrivial.add(f'cli {osn} {what}')
+        else:
+            ctx.failures.append({'cls': f'cli:{osn}:{what}', 'case': 'a2kit ' + ' '.join(pk) + ' | a2kit ' + ' '.join(up),
+                                 'detail': f'unpack exited with {rc2}; output {len(out)} bytes, expected {len(want) if want is not None else "records"}: {err2.decode("utf-8", "replace")[-200:]}'})
+
 
 def replay(ctx, rp):
     f = rp.get('failure')
